@@ -260,6 +260,9 @@ def main(argv=None):
             rejected += res['rejected']
             ps = per_sub.setdefault(t['sub'], dict(evaluations=0, nontrivial=0, replays=0))
             ps['evaluations'] += res['evaluations']
+            if res.get('wall_s', 0) > ps.get('slowest_shard_s', 0):
+                ps['slowest_shard_s'] = round(res['wall_s'], 1)
+                ps['slowest_shard'] = t.get('shard')
             hs = set(t['sub'] + ':' + h for h in res['nt_hashes'])
             ps['nontrivial'] += len(hs - nt)
             nt |= hs
@@ -351,7 +354,8 @@ def main(argv=None):
               f'rejected={rejected} skipped={sum(skipped.values())} known_hits={sum(known_hits.values())} '
               f'inconclusive={len(inconclusive)} wall={wall:.1f}s')
         for name, ps in sorted(per_sub.items()):
-            print(f'   {name:28s} evals={ps["evaluations"]:7d} nontrivial={ps["nontrivial"]:7d} replays={ps["replays"]}')
+            print(f'   {name:28s} evals={ps["evaluations"]:7d} nontrivial={ps["nontrivial"]:7d} replays={ps["replays"]} '
+                  f'slowest shard {ps.get("slowest_shard")}: {ps.get("slowest_shard_s", 0)}s')
         for n_ in notes:
             print('note:', n_)
         if violations:
